@@ -107,6 +107,17 @@ def gebvRaw {L G : Type} (beta ua : List (List α)) (t : Nat) (A : List (List In
 def gegvGM (beta ua ud : List (List α)) (t : Nat) (ploidy : Int) (A : List (List Int)) : List (List α) :=
   gebvMat beta (ua ++ ud) (castM (hcat A (hetGM ploidy A))) t
 
+/-- labelled result of the dominance model's `gegv` on a phased genotype matrix of the given ploidy -/
+def gegvPhased {L G : Type} (beta ua ud : List (List α)) (t : Nat) (ploidy : Int) (g : List (List (List Int)))
+    (taxa : Option (List L)) (grp : Option (List G)) : Labelled α L G :=
+  ⟨gegvGM beta ua ud t ploidy (phaseSum g), taxa, grp⟩
+
+/-- `TrueBreedingValue.estimate(ptobj, gtobj)` = `gpmod.gebv(gtobj)`: the phenotype object (any type `P`:
+    `None`, array, data frame, breeding value matrix with its own taxa) is not consulted -/
+def tbvEstimate {P L G : Type} (beta ua : List (List α)) (t : Nat) (_ptobj : P) (g : List (List (List Int)))
+    (taxa : Option (List L)) (grp : Option (List G)) : Labelled α L G :=
+  gebvPhased beta ua t g taxa grp
+
 /-- dominance model `gegv` on a raw array: `D = (gtobj == 1)` -/
 def gegvRaw (beta ua ud : List (List α)) (t : Nat) (A : List (List Int)) : List (List α) :=
   gebvMat beta (ua ++ ud) (castM (hcat A (hetRaw A))) t
@@ -125,7 +136,9 @@ variable {α : Type} [Add α] [Mul α] [Sub α] [Div α] [Zero α] [One α] [Nat
 def mean (l : List α) : α := l.sum / (l.length : α)
 
 /-- numpy `x.var()` (population variance) -/
-def var (l : List α) : α := mean (l.map (fun x => (x - mean l) * (x - mean l)))
+def var (l : List α) : α :=
+  let m := mean l          -- bound once: numpy computes the mean once (and the interpreter should too)
+  mean (l.map (fun x => (x - m) * (x - m)))
 
 /-- `M.var(0)` for a matrix with `t` columns -/
 def varCols (M : List (List α)) (t : Nat) : List α := (List.range t).map (fun k => var (col M k))
